@@ -57,6 +57,12 @@ impl Reservoir {
             }
         }
 
+        // Nothing could be read from the source: there is nothing to sample
+        // (and no chunk of the lake that a sample could be read into)
+        if self.lake.is_empty() {
+            return self.lake;
+        }
+
         let mut threshold = E.powf(fastrand::f64().ln() / f64::from(self.k));
         // An index into the stream of the next sample to take
         let mut next = self.lake.len();
